@@ -329,3 +329,41 @@ def eval (cx : Ctx) (script : Bytes) (stack : List Bytes) : Out :=
   else loop cx (3 * script.length + 2) { stack := stack, s := script }
 
 end Btc.Script.Btclib
+
+namespace Btc.Script.Btclib
+
+/-- `"OP_NOP" in op` -/
+def containsSub (hay needle : List Char) : Bool :=
+  match hay with
+  | [] => needle.isEmpty
+  | c :: r => needle.isPrefixOf (c :: r) || containsSub r needle
+
+/-- `op[3:].isdigit()` -/
+def digitsAfterOp (name : String) : Option Nat :=
+  let d := name.toList.drop 3
+  if d.isEmpty || !d.all Char.isDigit then none else some (d.foldl (fun acc c => acc * 10 + (c.toNat - 48)) 0)
+
+/-- the if-chain of `_run_ops` over the op code's NAME, read off the regenerated tables
+    (`script.OP_CODE_NAME_FROM_INT`, `engine.script.OPERATIONS`) -/
+def kindFromTables (t : Nat) : Kind :=
+  match Gen.Script.OP_NAMES.lookup t with
+  | none => .unknown                       -- op_code_name raises
+  | some op =>
+    if op == "OP_CHECKSIG" then .checksig
+    else if op == "OP_CHECKMULTISIG" then .checkmultisig
+    else if op == "OP_CHECKLOCKTIMEVERIFY" then .cltv
+    else if op == "OP_CHECKSEQUENCEVERIFY" then .csv
+    else match digitsAfterOp op with
+      | some n => .digit n
+      | none =>
+        if op == "OP_CODESEPARATOR" then .codesep
+        else if op == "OP_IF" then .opIf
+        else if op == "OP_NOTIF" then .opNotif
+        else if op == "OP_ELSE" then .opElse
+        else if op == "OP_ENDIF" then .opEndif
+        else if op == "OP_NOP" then .nop
+        else if containsSub op.toList "OP_NOP".toList then .nopN
+        else if Gen.Script.LEGACY_OPERATIONS.contains op then .operation
+        else .unknown                      -- unknown_op_code
+
+end Btc.Script.Btclib
